@@ -21,6 +21,7 @@ from . import core, loader
 
 ROOT = os.path.dirname(os.path.dirname(os.path.abspath(__file__)))
 NPROC = int(os.environ.get('SX_NPROC', '16'))
+OUT = os.environ.get('SX_OUT', ROOT)     # evidence/ and replays/ go here (mutant self-tests redirect it)
 
 _MODS = {}
 
@@ -290,7 +291,7 @@ def report(pid, tier, seed, hmod, shapes, results, skipped, wall):
                 known_hits[k['id']][1] += 1
             else:
                 violations.append((r['shape'], f))
-    os.makedirs(os.path.join(ROOT, 'evidence'), exist_ok=True)
+    os.makedirs(os.path.join(OUT, 'evidence'), exist_ok=True)
     lines = []
     for kid, (k, n) in sorted(known_hits.items()):
         lines.append('KNOWN-FINDING: property=%s %s: %s (%d failing paths match this signature)' % (pid, kid, k['what'], n))
@@ -304,7 +305,7 @@ def report(pid, tier, seed, hmod, shapes, results, skipped, wall):
         rec = {'property': pid, 'shape': shape, 'label': f['label'], 'values': f['values'], 'choices': f['choices'], 'events': f['events'],
                'native_labels': f['native_labels'], 'native_detail': f['native_detail'], 'native_crash': f['native_crash'], 'detail': f['detail']}
         blob = json.dumps(rec, sort_keys=True, default=str)
-        d = os.path.join(ROOT, 'replays', pid)
+        d = os.path.join(OUT, 'replays', pid)
         os.makedirs(d, exist_ok=True)
         path = os.path.join(d, hashlib.sha1(blob.encode()).hexdigest()[:12] + '.json')
         with open(path, 'w') as fh:
@@ -351,7 +352,7 @@ def report(pid, tier, seed, hmod, shapes, results, skipped, wall):
         'assumptions': list(getattr(hmod, 'ASSUMPTIONS', [])),
         'wall_s': round(wall, 2), 'violations': len(violations),
     }
-    with open(os.path.join(ROOT, 'evidence', pid + '.json'), 'w') as fh:
+    with open(os.path.join(OUT, 'evidence', pid + '.json'), 'w') as fh:
         json.dump(evidence, fh, indent=1, default=str)
     for l in lines:
         print(l)
